@@ -25,11 +25,187 @@ var solvers = []solverSpec{
 	}},
 }
 
+// SMTLite: the obligation without the universally quantified assumptions (their instances at the goal's skolem
+// constants stay). Dropping assumptions is sound for a proof; "sat" from this variant means nothing.
+func (o *Obligation) SMTLite() (string, bool) {
+	var b strings.Builder
+	b.WriteString("(set-logic ALL)\n")
+	b.WriteString(prelude)
+	dropped := false
+	var keep []bool
+	if !noPrune {
+		keep = o.relevantLines()
+	}
+	for i, l := range o.ctx.lines[:o.Prefix] {
+		if keep != nil && !keep[i] {
+			continue
+		}
+		if strings.Contains(l, "(forall ") || strings.Contains(l, "(exists ") {
+			if strings.HasPrefix(l, "(assert ") {
+				dropped = true
+				continue
+			}
+			return "", false // a definition with a quantifier inside: no lite variant
+		}
+		b.WriteString(l)
+		b.WriteByte('\n')
+	}
+	if !dropped {
+		return "", false
+	}
+	for _, x := range o.Extra {
+		b.WriteString("(assert " + x + ")\n")
+	}
+	b.WriteString("(assert " + o.Goal + ")\n(check-sat)\n")
+	return b.String(), true
+}
+
+// lineSyms caches, per context line, the quoted symbols it mentions (the first one is the symbol a declaration or
+// definition introduces).
+type lineInfo struct {
+	kind byte // 'd' declaration / definition, 'a' assertion, 'o' other
+	def  string
+	syms []string
+}
+
+func (c *Ctx) info(i int) *lineInfo {
+	c.infoMu.Lock()
+	defer c.infoMu.Unlock()
+	for len(c.infos) <= i {
+		c.infos = append(c.infos, nil)
+	}
+	if c.infos[i] != nil {
+		return c.infos[i]
+	}
+	l := c.lines[i]
+	li := &lineInfo{kind: 'o'}
+	switch {
+	case strings.HasPrefix(l, "(declare-const "), strings.HasPrefix(l, "(declare-fun "), strings.HasPrefix(l, "(define-fun "):
+		li.kind = 'd'
+	case strings.HasPrefix(l, "(assert "):
+		li.kind = 'a'
+	}
+	seen := map[string]bool{}
+	for j := 0; j < len(l); j++ {
+		switch l[j] {
+		case '"':
+			for j++; j < len(l); j++ {
+				if l[j] == '"' {
+					if j+1 < len(l) && l[j+1] == '"' {
+						j++
+						continue
+					}
+					break
+				}
+			}
+		case '|':
+			k := strings.IndexByte(l[j+1:], '|')
+			if k < 0 {
+				j = len(l)
+				break
+			}
+			sym := l[j : j+k+2]
+			if li.kind == 'd' && li.def == "" {
+				li.def = sym
+			} else if !seen[sym] {
+				seen[sym] = true
+				li.syms = append(li.syms, sym)
+			}
+			j += k + 1
+		}
+	}
+	c.infos[i] = li
+	return li
+}
+
+// ubiquitous symbols do not make an assertion relevant on their own: parameters, the entry heap, the entry watermark
+func ubiquitous(sym string) bool {
+	return strings.HasPrefix(sym, "|pc!") || strings.HasPrefix(sym, "|p!") || sym == "|wm0|" || (strings.HasPrefix(sym, "|H!") && strings.HasSuffix(sym, "!e0|")) ||
+		sym == "|arrtype|" || strings.HasPrefix(sym, "|fn!") || strings.HasPrefix(sym, "|iterkey")
+}
+
+// relevantLines: the context lines in the cone of influence of the goal — the definitions it (transitively) mentions
+// and the assertions that speak about a symbol of the cone. Dropping the other assertions only weakens the
+// assumptions, so a proof of the pruned obligation is a proof of the full one.
+func (o *Obligation) relevantLines() []bool {
+	c := o.ctx
+	n := o.Prefix
+	keep := make([]bool, n)
+	in := map[string]bool{}
+	var addSyms func(text string)
+	addSyms = func(text string) {
+		for j := 0; j < len(text); j++ {
+			if text[j] == '|' {
+				k := strings.IndexByte(text[j+1:], '|')
+				if k < 0 {
+					return
+				}
+				in[text[j:j+k+2]] = true
+				j += k + 1
+			}
+		}
+	}
+	addSyms(o.Goal)
+	for _, x := range o.Extra {
+		addSyms(x)
+	}
+	for changed := true; changed; {
+		changed = false
+		for i := n - 1; i >= 0; i-- {
+			if keep[i] {
+				continue
+			}
+			li := c.info(i)
+			switch li.kind {
+			case 'd':
+				if in[li.def] {
+					keep[i] = true
+					changed = true
+					for _, s := range li.syms {
+						in[s] = true
+					}
+				}
+			case 'a':
+				rel := false
+				all := true
+				for _, s := range li.syms {
+					if in[s] {
+						if !ubiquitous(s) {
+							rel = true
+						}
+					} else if !strings.HasPrefix(s, "|q!") && !ubiquitous(s) {
+						all = false
+					}
+				}
+				if rel || (all && len(li.syms) > 0) {
+					keep[i] = true
+					changed = true
+					for _, s := range li.syms {
+						in[s] = true
+					}
+				}
+			default:
+				keep[i] = true
+			}
+		}
+	}
+	return keep
+}
+
+var noPrune = os.Getenv("GOVC_NOPRUNE") != ""
+
 func (o *Obligation) SMT() string {
 	var b strings.Builder
 	b.WriteString("(set-logic ALL)\n")
 	b.WriteString(prelude)
-	for _, l := range o.ctx.lines[:o.Prefix] {
+	var keep []bool
+	if !noPrune && o.Expect != "canary" {
+		keep = o.relevantLines()
+	}
+	for i, l := range o.ctx.lines[:o.Prefix] {
+		if keep != nil && !keep[i] {
+			continue
+		}
 		b.WriteString(l)
 		b.WriteByte('\n')
 	}
@@ -59,7 +235,37 @@ func Discharge(o *Obligation, dir string, idx int, timeoutS int) {
 	}
 	ctx, cancel := context.WithCancel(context.Background())
 	defer cancel()
-	ch := make(chan answer, len(solvers))
+	nruns := len(solvers)
+	liteFile := ""
+	if lite, ok := o.SMTLite(); ok && o.Expect != "canary" {
+		liteFile = filepath.Join(dir, fmt.Sprintf("o%05d.lite.smt2", idx))
+		if err := os.WriteFile(liteFile, []byte(lite), 0o644); err == nil {
+			nruns += 2
+		} else {
+			liteFile = ""
+		}
+	}
+	ch := make(chan answer, nruns)
+	if liteFile != "" {
+		for _, s := range []solverSpec{solvers[0], solvers[2]} {
+			s := s
+			go func() {
+				t0 := time.Now()
+				a := s.args(liteFile, timeoutS)
+				cmd := exec.CommandContext(ctx, a[0], a[1:]...)
+				var out bytes.Buffer
+				cmd.Stdout = &out
+				cmd.Stderr = &out
+				_ = cmd.Run()
+				first := strings.TrimSpace(strings.SplitN(out.String(), "\n", 2)[0])
+				v := "unknown"
+				if first == "unsat" {
+					v = "unsat" // only a proof counts: assumptions were dropped
+				}
+				ch <- answer{s.name + "/lite", v, out.String(), time.Since(t0).Milliseconds()}
+			}()
+		}
+	}
 	for _, s := range solvers {
 		s := s
 		go func() {
@@ -80,7 +286,7 @@ func Discharge(o *Obligation, dir string, idx int, timeoutS int) {
 		}()
 	}
 	var unknowns []string
-	for range solvers {
+	for i := 0; i < nruns; i++ {
 		a := <-ch
 		if a.verdict == "unsat" {
 			o.Status, o.Solver, o.TimeMS = "proved", a.solver, a.ms
